@@ -3,12 +3,14 @@
    (faster ones are ignored: the timeout never drops below 500 ms); TCP-like smoothing with alpha = 1/8,
    beta = 1/4; timeout = estimate + 4 deviations. Exact rationals, in seconds (the code computes in f64). *)
 From Coq Require Import QArith Qabs List.
+From MLV Require Import gen.Params.
 Import ListNotations.
 Open Scope Q_scope.
 
 Record rtt := { r_est : Q; r_dev : Q }.
 
-Definition MIN_TIMEOUT : Q := 1 # 2.
+(* MIN_REQUEST_TIMEOUT of the compiled crate (500 ms), in seconds *)
+Definition MIN_TIMEOUT : Q := Z.of_N P_MIN_REQUEST_TIMEOUT_MS # 1000.
 Definition rtt0 : rtt := {| r_est := MIN_TIMEOUT; r_dev := 0 |}.
 
 Definition rtt_timeout (r : rtt) : Q := r_est r + 4 * r_dev r.
